@@ -40,7 +40,10 @@ CONSTANTS
   RestoreLoadsIndex, \* required TRUE  (FALSE = F2)
   WorkerSurvives,    \* required TRUE  (FALSE = F1)
   HolesCounted,      \* required FALSE (TRUE  = F3)
-  QuarIdsReserved    \* required TRUE  (FALSE = F8)
+  QuarIdsReserved,   \* required TRUE  (FALSE = F8)
+  IgnoreCorrupted    \* configuration (Builder::ignore_corrupted): an unreadable blob file is left where
+                     \* it is and skipped at every start instead of being moved to the corrupted
+                     \* directory; `quar` then holds the ignored ids and nothing is counted as corrupted
 
 VARIABLES
   blob,      \* id |-> [recs, idx, memv, ifcnt]   (files in the work directory)
@@ -275,7 +278,7 @@ CountsOf(bl, a, sl, nid, q) ==
     closed    |-> LET cs == SelectSeq(sl, LAMBDA x : x # Hole)
                   IN  [j \in DOMAIN cs |-> <<cs[j], Len(bl[cs[j]].recs)>>],
     nextId    |-> nid,
-    corrupted |-> Cardinality(q) ]
+    corrupted |-> IF IgnoreCorrupted THEN 0 ELSE Cardinality(q) ]
 
 Counts == CountsOf(blob, active, slots, nextId, quar)
 
@@ -535,9 +538,13 @@ RestartLB(blobIn, graceful, lazy, dmg, label) ==
       \* a directory without any blob file is initialised like a new one (also by init_lazy):
       \* a fresh active blob, whose id must still be above every id ever used (quarantined ones)
       none  == ids = {}
+      \* ... unless the directory still holds ignored (unreadable) blob files: then it is an
+      \* existing directory whose blobs all failed to load, and init_lazy leaves it without an
+      \* active blob
+      bare  == none /\ lazy /\ IgnoreCorrupted /\ quar # {}
       fresh == (IF QuarIdsReserved THEN Max(usedIds) ELSE -1) + 1
       top == IF none THEN fresh ELSE Max(ids)
-      a2  == IF none THEN fresh ELSE IF lazy THEN None ELSE top
+      a2  == IF bare THEN None ELSE IF none THEN fresh ELSE IF lazy THEN None ELSE top
       \* an index is used iff it is valid for the current blob length; otherwise it is
       \* rebuilt from the blob by pushing in file order; every non-active blob is dumped
       bl2 == [b \in ids |->
@@ -554,10 +561,10 @@ RestartLB(blobIn, graceful, lazy, dmg, label) ==
   IN
   /\ act' = Act("restart", 0, 0, 0, (IF graceful THEN 1 ELSE 0) + (IF lazy THEN 2 ELSE 0), label)
   /\ ret' = Ok
-  /\ blob' = IF none THEN (fresh :> NewBlob) ELSE bl2
+  /\ blob' = IF none /\ ~bare THEN (fresh :> NewBlob) ELSE bl2
   /\ active' = a2 /\ slots' = cl
-  /\ nextId' = (IF none THEN fresh ELSE IF QuarIdsReserved THEN Max(usedIds) ELSE top) + 1
-  /\ usedIds' = IF none THEN usedIds \cup {fresh} ELSE usedIds
+  /\ nextId' = (IF none /\ ~bare THEN fresh ELSE IF QuarIdsReserved THEN Max(usedIds) ELSE top) + 1
+  /\ usedIds' = IF none /\ ~bare THEN usedIds \cup {fresh} ELSE usedIds
   /\ worker' = "running"
   /\ agedIds' = {}
   /\ UNCHANGED <<quar, opn>>
